@@ -253,8 +253,8 @@ def c09_predicate(line, obs, allow_known=False):
             if a[1] != 0:
                 return f"at a quiet point with every subscriber receiving the distributor still holds {a[1]} messages", None
             if case.buffer == 0:
-                want = len([s for s in subs if o.sr[s] < tk and s not in o.ur])
-                lo = len([s for s in subs if o.sr[s] < tk and s not in o.uc])
+                want = len([s for s in subs if o.sr[s] < tk and not (s in o.ur and o.ur[s] < tk)])
+                lo = len([s for s in subs if o.sr[s] < tk and not (s in o.uc and o.uc[s] < tk)])
                 if not (lo <= a[0] <= want):
                     return f"Stats reports {a[0]} subscriptions at a quiet point, the calls that returned leave {want}", None
     if o.leak:
@@ -402,7 +402,7 @@ C09_KINDS = ["steady", "burst", "burst", "concurrent", "stop-idle", "stop-dispat
 
 
 def gen(rng, tier, kinds, risky):
-    reps = 6 if tier == "quick" else 150
+    reps = 6 if tier == "quick" else 300
     out = []
     for backend in BACKENDS:
         for kind in kinds:
